@@ -45,7 +45,10 @@ func allCombos() []combo {
 
 func (c combo) cfg(r *core.Rng) *ev.Cfg {
 	cfg := &ev.Cfg{Checksum: c.Checksum, RowsV2: c.RowsV2, TableID4: c.ID4, ServerID: 1 + uint32(r.Intn(1000)), PadOnes: r.Bool()}
-	switch r.Intn(3) {
+	switch r.Intn(4) {
+	case 3:
+		// a MariaDB master announces itself with a 5.5.5- prefix (and writes checksums)
+		cfg.ServerVersion, cfg.NumTypes, cfg.GTIDPostHeader = []string{"5.5.5-10.4.12-MariaDB-log", "5.5.68-MariaDB", "5.6.0-m4"}[r.Intn(3)], 38, 42
 	case 0:
 		cfg.ServerVersion, cfg.NumTypes, cfg.GTIDPostHeader = "5.6.51-log", 35, 25
 	case 1:
